@@ -152,7 +152,16 @@ def run(ck):
             paths = paths_of(prog, thl, max_paths=20)
             for p in paths:
                 if p.outcome != "return":
-                    ck.undecided("C11.R3", cls + ".load", lsite, "load raises: %s" % (p.value,))
+                    # a raise on a path on which a membership test found one of the state's own networks absent from what was
+                    # read is the rejection of a file save() cannot have written (C11.R2 shows save writes every network)
+                    def _net_absent(c):
+                        u = c[3] if len(c) > 3 else None
+                        ops_ = getattr(u, "operands", None)
+                        return (isinstance(u, VUnknown) and u.tag == "in" and ops_ is not None and isinstance(ops_[0], VConst)
+                                and ops_[0].value in nets_of() and c[2] is bool(getattr(u, "negated", False)))
+
+                    if not any(_net_absent(c) for c in p.conds):
+                        ck.undecided("C11.R3", cls + ".load", lsite, "load raises: %s" % (p.value,))
                     continue
                 s_obj, loc = p.value
                 nets = state_networks(p.interp, s_obj)
@@ -171,13 +180,50 @@ def run(ck):
             if cls != "PositiveWaveFunction":
                 # unitary_dict restored when present in the file
                 src = ast.unparse(prog.method(cls, "load").node)
-                restores = [p for p in paths if p.outcome == "return" and any(e.kind == "setattr" and e.detail == "unitary_dict" for e in p.effects)]
-                ck.check(bool(restores), "C11.R3", cls + ".load:unitary_dict restored", lsite, "load never assigns the stored unitary dictionary to the state")
+                def _restored(p_):
+                    """'assigned' (the attribute is bound to what was loaded), 'refilled' (the model's own dictionary emptied, then
+                    filled from the file), 'merged' (filled from the file without being emptied first) or None"""
+                    if any(e.kind == "setattr" and e.detail == "unitary_dict" for e in p_.effects):
+                        return "assigned"
+                    own = p_.interp.get_attr(p_.value[0], "unitary_dict", None)
+                    own = getattr(own, "obj", None)
+                    ops_ = [e.detail for e in p_.effects if e.kind == "container" and own is not None and e.obj is own]
+                    if "dict.update" in ops_ or "dict.__setitem__" in ops_ or "dict store" in ops_:
+                        first_fill = min(k_ for k_, d_ in enumerate(ops_) if d_ in ("dict.update", "dict.__setitem__", "dict store"))
+                        return "refilled" if "dict.clear" in ops_[:first_fill] else "merged"
+                    return None
+
+                kinds = {id(p): _restored(p) for p in paths if p.outcome == "return"}
+                restores = [p for p in paths if p.outcome == "return" and kinds[id(p)] in ("assigned", "refilled")]
+                merged = [p for p in paths if p.outcome == "return" and kinds[id(p)] == "merged"]
+                if merged and not restores:
+                    ck.violation("C11.R3", cls + ".load:unitary_dict restored", lsite,
+                                 "load fills the model's own unitary dictionary from the file without emptying it first: unitaries the model has and the file lacks survive the load - "
+                                 "the loaded model does not have the saved unitary dictionary", key="C11.R3|%s.load|unitary_dict merged" % cls)
+                else:
+                    ck.check(bool(restores), "C11.R3", cls + ".load:unitary_dict restored", lsite, "load never assigns the stored unitary dictionary to the state")
                 # ... on EVERY path on which the file holds one: the only reason not to assign is a membership test that found none
                 for p in paths:
-                    if p.outcome != "return" or any(e.kind == "setattr" and e.detail == "unitary_dict" for e in p.effects):
+                    if p.outcome != "return" or kinds.get(id(p)) is not None:
                         continue
-                    absent = [c for c in p.conds if len(c) > 3 and isinstance(c[3], VUnknown) and c[3].tag == "in" and c[2] is False]
+                    def _says_absent(c):
+                        """the condition is a test that found no 'unitary_dict' entry in what was read: a membership test of that
+                        key, or an is-None test of what `.get` of that key gave"""
+                        if len(c) <= 3 or not isinstance(c[3], VUnknown):
+                            return False
+                        u = c[3]
+                        ops_ = getattr(u, "operands", None)
+                        if u.tag == "in":
+                            if ops_ is not None and isinstance(ops_[0], VConst) and ops_[0].value != "unitary_dict":
+                                return False
+                            return c[2] is bool(getattr(u, "negated", False))
+                        if u.tag == "is" and ops_ is not None:
+                            got = [o for o in ops_ if isinstance(o, VUnknown) and isinstance(getattr(o, "key", None), VConst) and o.key.value == "unitary_dict"]
+                            none = [o for o in ops_ if isinstance(o, VConst) and o.value is None]
+                            return bool(got and none) and c[2] is (not getattr(u, "negated", False))
+                        return False
+
+                    absent = [c for c in p.conds if _says_absent(c)]
                     ck.check(bool(absent), "C11.R3", cls + ".load:unitary_dict restored whenever the file has one/" + _c(p), lsite,
                              "on this path load() leaves the model's own unitary dictionary in place although the file holds one (%s): a saved dictionary with the same names but other matrices "
                              "(a user-redefined X) is not restored" % ", ".join("%s=%s" % (c[1][:40], c[2]) for c in p.conds)[:200], key="C11.R3|%s.load|unitary_dict kept" % cls)
